@@ -139,9 +139,30 @@ def flavor_agnostic(run_, F, pc):
     from the slice path.  The only admitted callers are the SeqAccess/MapAccess `size_hint` forwarders (advisory to the visitor)."""
     DELIVER = ("pop", "try_take_n", "try_take_n_temp", "finalize")
     n_hint = 0
+    def admitted(g):
+        return g.name == "size_hint" and (g.impl_trait or "").endswith(("de::SeqAccess", "de::MapAccess"))
+
+    def callers(g):
+        out = []
+        for h in pc.fns:
+            for bb_ in h.blocks or []:
+                t_ = bb_["term"]
+                cal_ = t_.get("callee") if t_["k"] == "call" else None
+                if cal_ and g.canon in (cal_.get("canon"), (cal_.get("resolved") or {}).get("canon")):
+                    out.append(h)
+        return out
+
+    def only_for_hint(g, depth=0):
+        """a private accessor that exists only to serve the admitted forwarders (every caller is one, or another such accessor)"""
+        if g.j.get("vis") == "Public" or g.impl_trait or depth > 2:
+            return False
+        cs = callers(g)
+        return bool(cs) and all(admitted(h) or only_for_hint(h, depth + 1) for h in cs)
     for f in pc.fns:
         if not f.canon.startswith("postcard::de::") or f.canon.startswith("postcard::de::flavors::"):
             continue
+        if (f.impl_trait or "") == "postcard::de::flavors::Flavor":
+            continue          # a source (modifier) flavor forwarding to the one it wraps, wherever its module lives: judged as a flavor (R/B/D rules)
         for bb in f.blocks:
             t = bb["term"]
             if t["k"] != "call" or not t["callee"]:
@@ -151,7 +172,7 @@ def flavor_agnostic(run_, F, pc):
                 continue
             if c["name"] == "size_hint":
                 n_hint += 1
-                run_.check(f.name == "size_hint" and (f.impl_trait or "").endswith(("de::SeqAccess", "de::MapAccess")), "FA",
+                run_.check(admitted(f) or only_for_hint(f), "FA",
                            "%s calls Flavor::size_hint" % summ.fn_key(f),
                            "the generic decoder consults the source's size hint: readers report remaining scratch, the slice source remaining "
                            "input, so the reader path no longer decides like the slice path", f.where(),
